@@ -1331,11 +1331,18 @@ func c27U(t *rapid.T, n int, label string) int {
 
 func c27Pick(t *rapid.T, l []string, label string) string { return l[c27U(t, len(l), label)] }
 
-func c27GenData(t *rapid.T, c *c27Case) {
+func c27GenData(t *rapid.T, c *c27Case, earlyPct int) {
 	c.NTags = 1 + c27U(t, 3, "ntags")
+	many := earlyPct >= 25 // selection operators need several series per group
+	if many && c.NTags < 2 {
+		c.NTags = 2
+	}
 	card := make([]int, c.NTags)
 	for i := range card {
 		card[i] = 1 + c27U(t, 3, "card")
+		if many && i < 2 && card[i] < 2 {
+			card[i] = 2 + c27U(t, 2, "card2")
+		}
 		if i == 2 && card[0]*card[1] > 4 {
 			card[i] = 1
 		}
@@ -1365,16 +1372,15 @@ func c27GenData(t *rapid.T, c *c27Case) {
 		from = 0
 	}
 	to := c.End + 3 - int64(c27U(t, 6, "datato"))
-	early := c27U(t, 2, "early") == 0
 	for _, combo := range combos {
-		if c27U(t, 10, "series-absent") == 0 && len(combos) > 1 {
+		if c27U(t, 10, "series-absent") == 0 && len(combos) > 1 && !many {
 			continue
 		}
 		level := c27U(t, 40, "level")
 		// some series report only before the query start: the storage still returns them (hidden slot in front of the
 		// interval) but they have no point in the evaluated range
 		sfrom, sto := from, to
-		if early && c27U(t, 3, "early-series") == 0 {
+		if c27U(t, 100, "early-series") < earlyPct {
 			st := c.Step
 			if st == 0 {
 				st = 1
@@ -1458,7 +1464,6 @@ func c27GenAgg() *rapid.Generator[c27Case] {
 	return rapid.Custom(func(t *rapid.T) c27Case {
 		var c c27Case
 		c27GenWindow(t, &c)
-		c27GenData(t, &c)
 		q := c27Query{Sub: "agg"}
 		q.Op = c27Pick(t, []string{"sum", "min", "max", "avg", "count", "group", "stddev", "stdvar", "quantile", "quantile", "topk", "bottomk", "topk", "bottomk", "bottomk", "sort", "sort_desc"}, "op")
 		switch q.Op {
@@ -1467,9 +1472,28 @@ func c27GenAgg() *rapid.Generator[c27Case] {
 		case "topk", "bottomk":
 			q.Param = vpF(float64([]int{1, 2, 3, 1, 5, 0}[c27U(t, 6, "k")]))
 		}
+		family := q.Op == "topk" || q.Op == "bottomk" || q.Op == "sort" || q.Op == "sort_desc"
+		earlyPct := []int{0, 0, 10, 20}[c27U(t, 4, "earlypct")]
+		if family {
+			earlyPct = []int{0, 25, 30, 40}[c27U(t, 4, "earlypct-topk")]
+		}
+		c27GenData(t, &c, earlyPct)
 		q.What = c27Pick(t, c27Whats, "what")
 		q.Inner = c27Pick(t, []string{"plus0", "plus0", "neg", "abs", "mul2", "gt", "lt"}, "inner")
-		q.Thr = vpF(float64(c27U(t, 56, "thr") - 10))
+		if family && c27U(t, 3, "filter-inner") == 0 {
+			q.Inner = c27Pick(t, []string{"gt", "lt"}, "inner2")
+		}
+		if q.Inner == "gt" || q.Inner == "lt" {
+			// a threshold inside the value range of the data, on a what that returns event values
+			q.What = c27Pick(t, []string{Avg, Min, Max}, "what-cmp")
+			lo, hi := math.MaxInt32, math.MinInt32
+			for _, r := range c.Rows {
+				for _, v := range r.Vals {
+					lo, hi = min(lo, v), max(hi, v)
+				}
+			}
+			q.Thr = vpF(float64(lo) + float64(hi-lo)*float64(2+c27U(t, 7, "thr"))/10)
+		}
 		c27GenMod(t, &c, &q)
 		c27GenFilter(t, &c, &q)
 		c.Q = q
@@ -1483,7 +1507,7 @@ func c27GenOverTime() *rapid.Generator[c27Case] {
 	return rapid.Custom(func(t *rapid.T) c27Case {
 		var c c27Case
 		c27GenWindow(t, &c)
-		c27GenData(t, &c)
+		c27GenData(t, &c, []int{0, 0, 15, 30}[c27U(t, 4, "earlypct")])
 		q := c27Query{Sub: "overtime"}
 		q.Fn = c27Pick(t, c27Fns, "fn")
 		if q.Fn == "quantile_over_time" {
@@ -1510,7 +1534,7 @@ func c27GenReduce() *rapid.Generator[c27Case] {
 	return rapid.Custom(func(t *rapid.T) c27Case {
 		var c c27Case
 		c27GenWindow(t, &c)
-		c27GenData(t, &c)
+		c27GenData(t, &c, []int{0, 0, 15, 30}[c27U(t, 4, "earlypct")])
 		q := c27Query{Sub: "reduce"}
 		q.Shape = []int{0, 0, 0, 1, 2, 3}[c27U(t, 6, "shape")]
 		ops := []string{"sum", "min", "max", "avg", "count"}
